@@ -258,6 +258,25 @@ impl C08 {
             out.bucket("suffixes_tried");
         }
 
+        // (e') a v1 body behind a header: no documented layout has the magic followed by version 1 (v1
+        // files have no header at all), nor by any other value with a v1 body
+        if v == 1 {
+            for (name, head) in [
+                ("HPO\\x01", vec![b'H', b'P', b'O', 1u8]),
+                ("HPO\\x01 + release bytes", vec![b'H', b'P', b'O', 1, 0x07, 0xE8, 1, 1]),
+                ("HPO\\x00", vec![b'H', b'P', b'O', 0]),
+                ("HPO\\x04", vec![b'H', b'P', b'O', 4]),
+                ("HPO\\x02 (no release bytes)", vec![b'H', b'P', b'O', 2]),
+            ] {
+                let mut b = head.clone();
+                b.extend_from_slice(&bytes);
+                match load_damaged(&b, out) {
+                    Ok(how) => out.bucket(&format!("header_before_v1_body/{how}")),
+                    Err(()) => out.violate("C08", "bad_version_accepted/header_before_v1_body", format!("a v1 body behind the header {name} was accepted")),
+                }
+                out.bucket("version_bytes_tried");
+            }
+        }
         // (e) version byte
         if v >= 2 {
             for vb in 0..=255u8 {
@@ -266,12 +285,6 @@ impl C08 {
                 }
                 let mut b = bytes.clone();
                 b[3] = vb;
-                if vb == 1 {
-                    // "HPO" + 1 is not a documented layout (v1 has no magic): outcome not judged
-                    let _ = load_damaged(&b, out);
-                    out.bucket("version_byte_1_with_magic_not_judged");
-                    continue;
-                }
                 match load_damaged(&b, out) {
                     Ok(how) => out.bucket(&format!("version_byte/{how}")),
                     Err(()) => out.violate(
@@ -295,7 +308,7 @@ impl Monitor for C08 {
     }
     fn rule(&self) -> String {
         "Calibration (every run): the harness' independent decoder parses the shipped tests/example_v1.hpo, example_v2.hpo, example.hpo, its encoder re-emits them byte-identically and the library's view of each file equals the model of the decoded facts. \
-         A fault case = one generated FactSet (2-40 terms, all record kinds, flags) encoded as v1, v2 or v3 by the independent encoder (records shuffled; parent records for all terms or only for terms with parents): the intact file must decode to exactly the model; two further record permutations must give the same observation; from_bytes(&B[..k]) must be rejected (Err or documented panic) for EVERY k in 0..len; 28 suffixes (1-8 bytes of 00/ff/random, empty section(s), copies of whole sections) must be rejected; all 255 other version-byte values must be rejected (value 1 with magic not judged). \
+         A fault case = one generated FactSet (2-40 terms, all record kinds, flags) encoded as v1, v2 or v3 by the independent encoder (records shuffled; parent records for all terms or only for terms with parents): the intact file must decode to exactly the model; two further record permutations must give the same observation; from_bytes(&B[..k]) must be rejected (Err or documented panic) for EVERY k in 0..len; 28 suffixes (1-8 bytes of 00/ff/random, empty section(s), copies of whole sections) must be rejected; all 255 other version-byte values must be rejected, and so must a v1 body behind a header (magic + 0, 1, 2 or 4). \
          Distinct = (fact content, version, parent-record style); non-trivial = >= 3 terms."
             .into()
     }
